@@ -385,6 +385,11 @@ func zeroDivisorReachable(p *core.Program, s divSite) (bool, string, int) {
 		// from ever being installed when the divisor is zero
 		if s.lit != nil {
 			root := rootIdent(s.expr.Y)
+			// a divisor defined inside the callback (n := int64(resolution.Duration)) is guarded through the
+			// variable its value is built on: take the root of the resolved divisor instead
+			if m := canonRootRE.FindStringSubmatch(d); m != nil && m[1] != root {
+				root = m[1]
+			}
 			in := newInterp(p, s.fn)
 			in.ErrorsNil = true
 			in.MaxPaths = 3000
@@ -668,3 +673,5 @@ func sortStrings(s []string) {
 		}
 	}
 }
+
+var canonRootRE = regexp.MustCompile(`^(?:\(|int64\(|int\(|float64\()*([A-Za-z_][A-Za-z0-9_]*)`)
